@@ -11,8 +11,18 @@ let nat_of_string s = nat_of_int (int_of_string s)
 let sub_from s k = String.sub s k (String.length s - k)
 let starts s p = String.length s >= String.length p && String.sub s 0 (String.length p) = p
 
+(* decorations: <event>*<n> = the event's bytes arrive cut into n chunks in one action (same event for the model);
+   <event>+ = this event and the next one arrive in ONE chunk (the model delivers both in that action) *)
+let strip_deco (t : string) : string =
+  let t = if String.length t > 0 && t.[String.length t - 1] = '+' then String.sub t 0 (String.length t - 1) else t in
+  match String.index_opt t '*' with Some i -> String.sub t 0 i | None -> t
+let joined (t : string) : bool = String.length t > 0 && t.[String.length t - 1] = '+'
+
 let parse_event (t : string) : ev =
+  let t = strip_deco t in
   if t = "h" then EHeaders HOk
+  else if starts t "hk" then EHeaders HOk      (* sections h3's gate accepts although RFC 9114 calls them malformed *)
+  else if starts t "tk" then EHeaders HOk
   else if t = "ho" then EHeaders HOversized
   else if t = "hq" then EHeaders HBadQpack
   else if starts t "hm" then EHeaders HMalformed
@@ -32,7 +42,7 @@ let parse_event (t : string) : ev =
     | _ -> failwith ("bad data event " ^ t) end
   else failwith ("bad event " ^ t)
 
-type rq = { script : ev list; stop : n option; hsize : n; body : n list; trlz : n option }
+type rq = { script : ev list; stop : n option; hsize : n; body : n list; trlz : n option; joins : bool array }
 
 let parse_req (s : string) : rq =
   match String.split_on_char ';' s with
@@ -40,11 +50,12 @@ let parse_req (s : string) : rq =
       { script = (if evs = "-" then [] else
                   (* a trailer-shaped section in FIRST position is a message header without its pseudo-header fields *)
                   List.mapi (fun i t -> match parse_event t with
-                                        | EHeaders HOk when i = 0 && starts t "t" -> EHeaders HMalformed
+                                        | EHeaders HOk when i = 0 && starts (strip_deco t) "t" -> EHeaders HMalformed
                                         | e -> e) (String.split_on_char '.' evs));
         stop = (if stop = "-" then None else Some (n_of_string stop));
         hsize = n_of_string z; body = bytes_of_hex body;
-        trlz = (if tz = "-" then None else Some (n_of_string tz)) }
+        trlz = (if tz = "-" then None else Some (n_of_string tz));
+        joins = (if evs = "-" then [||] else Array.of_list (List.map joined (String.split_on_char '.' evs))) }
   | _ -> failwith ("bad request " ^ s)
 
 let parse_action (reqs : rq array) (t : string) : action =
@@ -60,6 +71,18 @@ let parse_action (reqs : rq array) (t : string) : action =
     | 's' -> (match reqs.(i).stop with Some c -> PeerStop (nat_of_int i, c) | None -> failwith "stop without code")
     | _ -> failwith ("bad action " ^ t)
   end
+
+(* tokens -> actions; a delivery of an event marked `+` delivers its successor in the same action *)
+let actions_of (reqs : rq array) (toks : string list) : action list =
+  let next = Array.make (Array.length reqs) 0 in
+  List.concat_map (fun t ->
+    match parse_action reqs t with
+    | Deliver i as a ->
+        let k = int_of_nat i in
+        let e = next.(k) in
+        if e < Array.length reqs.(k).joins && reqs.(k).joins.(e) then (next.(k) <- e + 2; [a; a])
+        else (next.(k) <- e + 1; [a])
+    | a -> [a]) toks
 
 let touches (j : int) (t : string) : bool =
   if t = "pd" || starts t "g" then true else int_of_string (sub_from t 1) = j
@@ -114,14 +137,14 @@ let handle ws = match ws with
       let w0 = { sh = sh0;
                  reqs = List.mapi (fun i q -> init_req (mkcfg i q) q.script)
                           (Array.to_list reqs) } in
-      let acts = List.map (parse_action reqs) toks in
+      let acts = actions_of reqs toks in
       let w = run acts w0 in
       let n = Array.length reqs in
       let words = List.mapi (fun i r -> "r" ^ string_of_int i ^ "=" ^ req_str r) w.reqs in
       (* every request again, alone: only its own actions and the connection-level ones *)
       let diffs = ref [] in
       for j = n - 1 downto 0 do
-        let acts_j = List.map (parse_action reqs) (List.filter (touches j) toks) in
+        let acts_j = actions_of reqs (List.filter (touches j) toks) in
         let wj = run acts_j w0 in
         if req_str (nth_req wj.reqs j) <> req_str (nth_req w.reqs j) then diffs := string_of_int j :: !diffs
       done;
